@@ -196,6 +196,7 @@ def _shipped_task(task):
         return acc
     xs = C.edge_scalars(q, seed, 1)[:5]
     keys = list(statefmt.state_dict(inst.rp, side, b"", C.ids_for(side, 0), 0))
+    pat = [x for x in C.pattern_scalars(q, 0) if x not in xs]
     orders = list(itertools.permutations(keys))
     j = 0
     for pw in (b"password", b"\x00w0", b"", b"\xc3\xa9" * 40):
@@ -207,6 +208,15 @@ def _shipped_task(task):
             check_output(inst, side, pw, ids, x, acc)
             acc.n(states=1, traces=1)
             j += 1
+    # scalars with a distinguished byte at the boundary positions / every 8th bit length, in the stored state
+    for x in pat[("ABS".index(side))::3]:
+        ids = C.ids_for(side, j)
+        inb = [C.inbound_menu(inst, side, inst.ref.pw_scalar(b"pw"), x)[0][1]]
+        if check_restore(inst, side, b"pw", ids, x, orders[(j * 37 + 11) % len(orders)], statefmt.STYLES[j % 4], acc, inb):
+            acc.seen((name, side, "pattern", j % 4))
+        check_output(inst, side, b"pw", ids, x, acc)
+        acc.n(states=1, traces=1)
+        j += 1
     acc.inst(name, sessions=j)
     return acc
 
